@@ -123,7 +123,18 @@ def shard_main(argv):
     ctx = Recorder(spec['seed'], spec['shard'])
     ctx.tier = spec['tier']
     t0 = time.time()
-    mod.run_shard(spec, ctx)
+    try:
+        mod.run_shard(spec, ctx)
+    except Exception as e:
+        # an exception that escapes from inside the library (innermost frame under the tree being checked) for an input of the
+        # property's domain is an observation about the library, not a harness failure; anything else is re-raised (shard died)
+        import traceback
+        tb = traceback.extract_tb(e.__traceback__)
+        if not tb or not os.path.realpath(tb[-1].filename).startswith(root + os.sep):
+            raise
+        ctx.fail('api_raised_unexpectedly', {'shard_spec': {k: v for k, v in spec.items() if k not in ('pairs',)}},
+                 exc=repr(e), where='%s:%d %s' % (os.path.relpath(tb[-1].filename, root), tb[-1].lineno, tb[-1].name),
+                 trace=[('%s:%d %s' % (os.path.basename(f.filename), f.lineno, f.name)) for f in tb[-6:]])
     wall = time.time() - t0
     if led:
         led.stop()
@@ -332,7 +343,15 @@ def replay_main(path):
     f = d['failure']
     print('replaying %s kind=%s' % (prop, f['kind']))
     print('recorded:', json.dumps(f)[:2000])
-    mod.replay(f, ctx)
+    if f['kind'] == 'api_raised_unexpectedly':
+        spec = dict(f['case']['shard_spec'])
+        try:
+            import a5  # noqa
+            mod.run_shard(spec, Recorder(spec.get('seed', 1), spec.get('shard', 0)))
+        except Exception as e:
+            ctx.fail('api_raised_unexpectedly', f['case'], exc=repr(e))
+    else:
+        mod.replay(f, ctx)
     if ctx.failures:
         from . import findings
         known, viol = findings.classify(prop, jsonable(ctx.failures))
